@@ -76,7 +76,7 @@ func GuardedWorkerMain(build func() *Guarded) {
 		fmt.Fprintf(w, "D %d %d %d %s\n", i, ms.TotalAlloc-before, n, oneLine(outcome))
 		w.Flush()
 	}
-	os.Exit(0)
+	Exit(0)
 }
 
 func oneLine(s string) string {
